@@ -61,7 +61,7 @@ const ct = "Content-Type: application/activity+json\r\n"
 // nestedFrom: exchanges from this index on are fetches *inside* a document that itself loads fine (an author of a
 // post): a fault there must leave a failure item in that place, and the enclosing item must still be built in time.
 func nestedFrom(name string) int {
-	if name == "note-with-author" {
+	if name == "note-with-author" || name == "boost-of-foreign-copy" {
 		return 1
 	}
 	return -1
@@ -105,6 +105,15 @@ func corpus(name string) (input string, chain []exchange) {
 		return "https://%H0%%P%/note", []exchange{
 			{0, "/note", "HTTP/1.1 200 OK\r\n" + ct + "\r\n" + note},
 			{0, "/actor", "HTTP/1.1 200 OK\r\n" + ct + "\r\n" + strings.Replace(actor, `,"outbox":"https://%H0%%P%/outbox"`, "", 1)}}
+	case "boost-of-foreign-copy":
+		// a boost that carries a full copy of a post living on another host: the copy is not taken on trust, the post
+		// is fetched from its own host - and a fault there shows as an error item in the post's place (seed C05-K)
+		note := `{"id":"https://%H1%%P%/note","type":"Note","content":"<p>the original</p>","published":"2024-01-02T03:04:05Z"}`
+		boost := `{"id":"https://%H0%%P%/boost","type":"Announce","published":"2024-01-03T03:04:05Z","actor":` + strings.Replace(actor, `,"outbox":"https://%H0%%P%/outbox"`, "", 1) +
+			`,"object":{"id":"https://%H1%%P%/note","type":"Note","content":"<p>the copy</p>","published":"2024-01-02T03:04:05Z","sensitive":false,"to":["https://www.w3.org/ns/activitystreams#Public"]}}`
+		return "https://%H0%%P%/boost", []exchange{
+			{0, "/boost", "HTTP/1.1 200 OK\r\n" + ct + "\r\n" + boost},
+			{1, "/note", "HTTP/1.1 200 OK\r\n" + ct + "\r\n" + note}}
 	case "webfinger":
 		jrd := `{"subject":"acct:alice@%H0%","links":[{"rel":"http://webfinger.net/rel/profile-page","type":"text/html","href":"https://%H0%/@alice"},{"rel":"self","type":"application/activity+json","href":"https://%H0%%P%/actor"}]}`
 		return "@alice%PNUM%@%H0%", []exchange{
@@ -114,7 +123,7 @@ func corpus(name string) (input string, chain []exchange) {
 	panic("harness: unknown corpus " + name)
 }
 
-var corpora = []string{"actor", "actor-length-3MiB", "actor-length-absurd", "actor-trailing-newline", "collection", "redirect1", "redirect2", "webfinger", "note-with-author", "paged-collection"}
+var corpora = []string{"actor", "actor-length-3MiB", "actor-length-absurd", "actor-trailing-newline", "collection", "redirect1", "redirect2", "webfinger", "note-with-author", "paged-collection", "boost-of-foreign-copy"}
 
 // fixP inserts the case's path prefix; %PNUM% (its number) makes the webfinger query unique per case,
 // so the process-wide response cache cannot answer for an earlier case.
@@ -276,6 +285,23 @@ func check(c Case) vrep.Result {
 	if nf := nestedFrom(c.Corpus); nf >= 0 && c.Hop >= nf {
 		// the faulted fetch is an author inside a post that loads fine: the post is built, the author is an error item
 		post, isPost := result.(*pub.Post)
+		if boost, isBoost := result.(*pub.Activity); isBoost && c.Corpus == "boost-of-foreign-copy" {
+			// the faulted fetch is the boosted post, on its own host: the boost is built, the post is an error item
+			_, failed = boost.Target().(*pub.Failure)
+			if c.Kind == "none" && failed {
+				return vrep.Result{Classes: classes, Err: fmt.Errorf("harness: fault-free nested fetch fails")}
+			}
+			if c.Kind == "none" {
+				failed = true
+			}
+			if must && !failed {
+				return vrep.Result{Classes: classes, Err: fmt.Errorf("%s: the boosted post could not be fetched from its host, yet it is shown as %T (the copy inside the boost?)", describe(c), boost.Target())}
+			}
+			if may {
+				classes = append(classes, "may-region")
+			}
+			return vrep.Result{Classes: classes, Nontrivial: c.Kind != "none", May: may}
+		}
 		if !isPost && c.Kind == "garble" {
 			// garbage inside the author's document may change what it says (its id, its type): a post whose author
 			// then lives elsewhere is refused as a whole - in time and without a crash is all that is required
